@@ -17,20 +17,25 @@ QUICK_N = 160
 QUICK_OPS = 40
 
 
-def gen_histories(ctx, tool, n, maxops, procs=8):
+ZONES = ["Asia/Tokyo", "America/Los_Angeles"]
+
+
+def gen_histories(ctx, tool, n, maxops, procs=8, env=None, base=0, tag="hist"):
     """runs the driver in `procs` processes over disjoint index ranges; returns the executed histories"""
     per = (n + procs - 1) // procs
     jobs = []
     for i in range(procs):
-        first = i * per
-        cnt = min(per, n - first)
+        first = base + i * per
+        cnt = min(per, n - i * per)
         if cnt <= 0:
             break
-        jobs.append((os.path.join(ctx.scratch, "hist-%d.jsonl" % i), first, cnt))
+        jobs.append((os.path.join(ctx.scratch, "%s-%d.jsonl" % (tag, i)), first, cnt))
 
     def one(j):
         p, first, cnt = j
-        return vlib.run_tool(tool, [p, "gen", cnt, maxops, first], env_extra={"VERIF_SEED": str(ctx.seed)}, timeout=3000)
+        e = {"VERIF_SEED": str(ctx.seed)}
+        e.update(env or {})
+        return vlib.run_tool(tool, [p, "gen", cnt, maxops, first], env_extra=e, timeout=3000)
     with ThreadPoolExecutor(max_workers=procs) as ex:
         res = list(ex.map(one, jobs))
     hs = []
@@ -45,18 +50,36 @@ def gen_histories(ctx, tool, n, maxops, procs=8):
 
 
 def execute(ctx, tool, inputs, tag="replay"):
-    """executes histories given in input form (names + ops) on the current tree"""
-    p_in = os.path.join(ctx.scratch, "%s-in.jsonl" % tag)
-    with open(p_in, "w") as f:
-        for h in inputs:
-            f.write(json.dumps(h) + "\n")
-    p = os.path.join(ctx.scratch, "%s-out.jsonl" % tag)
-    rc, out, dt = vlib.run_tool(tool, [p, "replay", p_in], timeout=3000)
-    if rc != 0:
-        return None
-    hs = vlib.read_jsonl(p)
+    """executes histories given in input form (names + ops) on the current tree, each in the zone it was made for (`tz`, default UTC)"""
+    hs = []
+    zones = []
+    for h in inputs:
+        if h.get("tz", "UTC") not in zones:
+            zones.append(h.get("tz", "UTC"))
+    for zi, z in enumerate(zones):
+        p_in = os.path.join(ctx.scratch, "%s-%d-in.jsonl" % (tag, zi))
+        with open(p_in, "w") as f:
+            for h in inputs:
+                if h.get("tz", "UTC") == z:
+                    f.write(json.dumps(h) + "\n")
+        p = os.path.join(ctx.scratch, "%s-%d-out.jsonl" % (tag, zi))
+        rc, out, dt = vlib.run_tool(tool, [p, "replay", p_in], timeout=3000, env_extra={"TZ": z})
+        if rc != 0:
+            return None
+        hs += vlib.read_jsonl(p)
     for h in hs:
         h.setdefault("steps", [])       # a history all of whose ops were skipped
+    return hs
+
+
+def zone_slice(ctx, tool, n, maxops):
+    """the same driver in a child process whose zone is NOT UTC (one civil clock: start times and `today` are local): start clocks around
+    local midnight and around 00:00 UTC; the monitor judges `latest of today` (reader with latestStatusToday) by the reader's local date"""
+    hs = []
+    have = [z for z in ZONES if os.path.exists(os.path.join("/usr/share/zoneinfo", z))]
+    ctx.cov["zones"] = ["UTC"] + have
+    for zi, z in enumerate(have):
+        hs += gen_histories(ctx, tool, n, maxops, procs=4, env={"TZ": z, "VERIF_CLOCKS": "zone"}, base=50000 + 5000 * zi, tag="zone%d" % zi)
     return hs
 
 
@@ -175,6 +198,9 @@ def run(ctx, replay_inputs=None):
         n, maxops = (QUICK_N, QUICK_OPS) if ctx.tier == "quick" else (1200, 60)
         hs = gen_histories(ctx, tool, n, maxops)
         analyse(ctx, tool, hs)
+        zs = zone_slice(ctx, tool, 24 if ctx.tier == "quick" else 60, 30)
+        ctx.cov["zone_slice_histories"] = len(zs)
+        analyse(ctx, tool, zs)
         for h in hs[3:5]:
             ctx.sample({"names": [x["d"] for x in h["names"]],
                         "ops": [" ".join(str(v) for k, v in s["op"].items() if k in ("t", "d", "d2", "stamp", "req", "tag", "days")) for s in h["steps"]][:14],
@@ -187,7 +213,7 @@ def run(ctx, replay_inputs=None):
     ctx.cov["distinct_nontrivial"] = len(seen)
     ctx.cov["rule"] = ("operation histories (open/write/close/update/rename/removeold/removeall/touch, 5-40 ops quick, -60/-200 thorough) over 4-6 DAG "
                        "names drawn from {plain, space, dots, shared prefixes a/ab/a.b, _c suffix, glob metacharacters, stamp-like substring}, start stamps "
-                       "from a pool engineered for same-ms/same-second/same-minute/midnight collisions, executed on the real jsondb with three store instances; "
+                       "from a pool engineered for same-ms/same-second/same-minute/midnight collisions, executed on the real jsondb with three store instances (TZ=UTC, plus a slice in child processes with TZ=Asia/Tokyo and TZ=America/Los_Angeles and start clocks around local midnight / 00:00 UTC); "
                        "after EVERY op 7 status queries per name + FindByRequestID for every request id + a directory dump are compared with the Coq model "
                        "(correspondence) and with the abstract run map (monitor).  evaluations = query answers checked; distinct = distinct (names, ops) histories; "
                        "non-trivial = some DAG has >= 2 runs and an update/rename/retention/touch occurs")
